@@ -247,6 +247,28 @@ fn renderings(list: &[String], rng: &mut Rng) -> Vec<(String, &'static str)> {
 pub fn run_random(args: &Args, rep: &mut Report) {
     let total: u64 = if args.thorough { 3_000_000 } else { 100_000 };
     let n = args.scaled(total) / args.nshards.max(1);
+    if args.shard == 0 && args.start == 0 {
+        // lines whose tokenisation drops, moves or counts more than 255 / 256 bytes or tokens, each with exactly one reading:
+        // runs of blanks, many quoted tokens, many escaped quotes, many empty tokens
+        let mut lines: Vec<String> = vec![];
+        for n in [254usize, 255, 256, 257, 300, 511, 512, 513, 1000, 65_600] {
+            lines.push(format!("get{}led", " ".repeat(n)));
+            lines.push(format!("{}get led", " ".repeat(n)));
+            lines.push(format!("get led{}", " ".repeat(n)));
+        }
+        for k in [100usize, 127, 128, 129, 200, 255, 256, 257, 300, 700] {
+            lines.push((0..k).map(|i| format!("\"v{}\"", i)).collect::<Vec<_>>().join(" "));
+            lines.push((0..k).map(|i| format!("v{}", i)).collect::<Vec<_>>().join(" "));
+            lines.push(format!("a \"{}\" b", "\\\"".repeat(k)));
+            lines.push(format!("a \"{}\" b", "\\\\".repeat(k)));
+            lines.push(format!("a {} b", vec!["\"\""; k].join(" ")));
+            lines.push(format!("a {}b", "\"x y\"".repeat(k)));
+        }
+        for (i, l) in lines.iter().enumerate() {
+            check_line(l, rep, args, i as u64, true);
+            rep.count("c07.long_lines");
+        }
+    }
     run_cases(args, "C07", n, rep, &mut |idx, rep| {
         let mut rng = Rng::derive(args.seed ^ 0xC07, args.shard, idx);
         // (a) a random long line
